@@ -49,6 +49,42 @@ pub fn run(ctx: &mut Ctx) {
         for d in [498usize, 499, 500, 501, 502, 600] { one(ctx, 500, &format!("{pre}{}{mid}{}{post}", open.repeat(d), close.repeat(d))); nest_cases += 1; }
     }
     ctx.stat_n("nesting_x_recursion_limit_cases", nest_cases);
+    // ---- (audit G1) systematic families, the same on every seed — see pfam.rs ----
+    {
+        use crate::pfam::*;
+        let th = ctx.thorough;
+        let rls = [500usize, 500, 0, 1, 2, 3];
+        // ignored tokens of every kind (blank, comma, CRLF, comment with and without its line end, BOM), lexer errors (non-ASCII, control
+        // character, `..`, `1.`, an unterminated string that swallows the rest) in EVERY gap of one rich instance of every definition kind:
+        // the pending queue is flushed into every kind of node, before and after every token
+        let fillers: &[&str] = if th { &[" ", ",", "\r\n", "#c\n", "#c", "é", "\u{feff}", "\"", "..", "1.", "\u{1}", "😀", "\r", "\\", "\"\"\"", "0x"] } else { &[",", "\r\n", "#c\n", "é", "\u{feff}", "\"", "..", "😀"] };
+        let mut gaps = vec![];
+        for d in RICH { fill_gaps(d, fillers, |s| gaps.push(s)); }
+        for (i, s) in gaps.iter().enumerate() { one(ctx, rls[i % 6], s); }
+        ctx.stat_n("family:filler-in-every-gap", gaps.len() as u64);
+        // the same around the whole document (what is pending at the very start and at EOF)
+        let mut n = 0u64;
+        for d in RICH { for f in [" ", "\n", ",", "#c", "\u{feff}", "é", " é ", "\"", "\u{1}\r\n"] { one(ctx, 500, &format!("{f}{d}")); one(ctx, 500, &format!("{d}{f}")); one(ctx, 1, &format!("{f}{d}{f}")); n += 3; } }
+        ctx.stat_n("family:filler-around-document", n);
+        // every single-token deletion / duplication / swap of the rich instances: a syntax error at every grammar position
+        let mut edits = vec![];
+        for d in RICH { token_edits(d, &[], |_, s| edits.push(s)); }
+        for (i, s) in edits.iter().enumerate() { one(ctx, rls[i % 6], s); }
+        ctx.stat_n("family:token-edits", edits.len() as u64);
+        // every value position × constant / variable-carrying values (error recovery for a variable in a Const context: `[$v]`, `{k: $v}`
+        // pop the `$`), and a description at every place where one may and may not stand
+        let mut vals = fill(VALUE_POS_CONST, VALUE_FILLERS);
+        vals.extend(fill(VALUE_POS_NOTCONST, VALUE_FILLERS));
+        vals.extend(fill(DESC_POS, DESC_FILLERS));
+        for (i, s) in vals.iter().enumerate() { one(ctx, rls[i % 6], s); }
+        ctx.stat_n("family:value-and-description-positions", vals.len() as u64);
+        // type references: every string over the type alphabet (with blanks and a lexer error between the parts), in every position
+        // that takes a type — the checkpoint / wrap_node path of NON_NULL_TYPE with pending tokens in between
+        let mut tys = vec![];
+        for_all_strings(&["A", "[", "]", "!", " ", "é"], if th { 6 } else { 4 }, |s| tys.push(s.to_string()));
+        for (i, t) in tys.iter().enumerate() { for (j, pos) in ["type T { f: § }", "query($v: § = 1) { a }", "input I { x: § @d y: Int }"].iter().enumerate() { one(ctx, rls[(i + j) % 6], &pos.replace('§', t)); } }
+        ctx.stat_n("family:type-strings-x-position", (tys.len() * 3) as u64);
+    }
     // lexical errors and multibyte text at every grammar position
     let n = if ctx.thorough { 80_000 } else { 8_000 };
     let mut cov = std::collections::BTreeMap::new();
